@@ -4,6 +4,7 @@ CONSTANTS
   PNames = {"value", "target", "x", "y", "s"}
   ExtraM = {"zz"}
   ExtraP = {"zz", "cmd"}
+  CmdP = {"cmd"}
   Wires = {"w1", "w2", "w3", "wbad"}
   ValidW = {"w1", "w2", "w3"}
   ENames = {"HardwareError", "WrongType", "CommunicationFailed", "Bogus", "BadValue"}
